@@ -55,6 +55,8 @@ type syncRes struct {
 	Deadlock                                       bool
 	Dump                                           string
 	SendDoneBeforeTeardown, RecvDoneBeforeTeardown bool
+	// state when the (second) quiescence was seen, before contexts were released
+	SendDoneAtDeadlock, RecvDoneAtDeadlock bool
 	// StuckUntilTeardown: the session was quiescent before the harness tore
 	// the stream down (diagnostic, allowed by C04).
 	StuckUntilTeardown bool
@@ -95,7 +97,9 @@ func runSync(o syncOpt) *syncRes {
 	go func() {
 		err := recvFn(p.R.Context(), p.R)
 		p.R.CloseSend()
-		p.S.Cancel()
+		if !o.Cfg.TeardownKeepsContexts {
+			p.S.Cancel()
+		}
 		rd <- err
 	}()
 	deadline := time.NewTimer(o.Timeout)
@@ -164,13 +168,13 @@ func runSync(o syncOpt) *syncRes {
 				if !res.StuckUntilTeardown {
 					res.SendDoneBeforeTeardown, res.RecvDoneBeforeTeardown = res.SendDone, res.RecvDone
 				}
-				p.Teardown()
+				p.Release()
 				collect(10 * time.Second)
 				return res
 			}
 		case <-deadline.C:
 			res.TimedOut = true
-			p.Teardown()
+			p.Release()
 			collect(10 * time.Second)
 			return res
 		}
